@@ -135,18 +135,53 @@ struct LtEnt
 static LtEnt g_lt[LT_SIZE];
 static size_t g_lt_used = 0, g_lt_live = 0;
 static bool g_lt_overflow = false;
+static inline size_t ltHash(uintptr_t p);
 static inline size_t ltHash(uintptr_t p)
 {
    return (size_t)((p >> 4) * 0x9E3779B97F4A7C15ULL >> 40) & (LT_SIZE - 1);
 }
+static volatile bool g_in_case = false;
+static void ltCompact()
+{
+   static LtEnt tmp[LT_SIZE / 4];
+   size_t n = 0;
+   for(size_t i = 0; i < LT_SIZE; i++) if(g_lt[i].key > 1)
+      {
+         if(n >= LT_SIZE / 4)
+         {
+            g_lt_overflow = true;
+            return;
+         }
+         tmp[n++] = g_lt[i];
+      }
+   memset(g_lt, 0, sizeof g_lt);
+   g_lt_used = 0;
+   for(size_t k = 0; k < n; k++)
+   {
+      size_t h = ltHash(tmp[k].key ^ LT_MASK);
+      while(g_lt[h].key != 0) h = (h + 1) & (LT_SIZE - 1);
+      g_lt[h] = tmp[k];
+      g_lt_used++;
+   }
+   memset(tmp, 0, n * sizeof(LtEnt));
+}
 static void hookMalloc(const volatile void* ptr, size_t size)
 {
    int f = g_track;
-   if(f < 0 || ptr == nullptr) return;
+   if(ptr == nullptr || g_lt_overflow) return;
+   if(f < 0)
+   {
+      if(!g_in_case) return;
+      f = 2 * (int)F_COUNT;       // harness code of the current case (file preparation through the mirror, comparisons)
+   }
    if(g_lt_used > LT_SIZE / 2)
    {
-      g_lt_overflow = true;
-      return;
+      ltCompact();
+      if(g_lt_overflow || g_lt_used > LT_SIZE / 2)
+      {
+         g_lt_overflow = true;
+         return;
+      }
    }
    uintptr_t key = (uintptr_t)ptr ^ LT_MASK;
    size_t h = ltHash((uintptr_t)ptr);
@@ -457,12 +492,21 @@ static std::string diffSoPlex(SoPlex& a, SoPlex& b)
    {
       VectorBase<double> xa(n), xb(n), sa(m), sb(m), ya(m), yb(m), da(n), db(n);
       DIFF_I("getPrimal ok", a.getPrimal(xa), b.getPrimal(xb));
+      DIFF_I("getPrimal dim", xa.dim(), xb.dim());
+      xa.reDim(std::min(n, xa.dim()));
+      xb.reDim(std::min(n, xb.dim()));
       DIFF_S("getPrimal", vecKeyReal(xa), vecKeyReal(xb));
       DIFF_I("getSlacksReal ok", a.getSlacksReal(sa), b.getSlacksReal(sb));
+      sa.reDim(std::min(m, sa.dim()));
+      sb.reDim(std::min(m, sb.dim()));
       DIFF_S("getSlacksReal", vecKeyReal(sa), vecKeyReal(sb));
       DIFF_I("getDual ok", a.getDual(ya), b.getDual(yb));
+      ya.reDim(std::min(m, ya.dim()));
+      yb.reDim(std::min(m, yb.dim()));
       DIFF_S("getDual", vecKeyReal(ya), vecKeyReal(yb));
       DIFF_I("getRedCost ok", a.getRedCost(da), b.getRedCost(db));
+      da.reDim(std::min(n, da.dim()));
+      db.reDim(std::min(n, db.dim()));
       DIFF_S("getRedCost", vecKeyReal(da), vecKeyReal(db));
       if(a._rationalLP != nullptr)
       {
@@ -493,6 +537,7 @@ struct Ctx
    uint64_t seqhash = 1469598103934665603ULL;
    std::string seq;            // function names so far (replay payload)
    bool dead = false;          // twin states diverged (or handle gone): stop the history
+   bool inconsistent = false;  // history ended because the C++ library left both objects internally inconsistent
    int focus = -1;             // risky function enabled in this case only (-1: none)
    int nfile = 0;
    std::vector<std::string> files;
@@ -530,11 +575,7 @@ static void flushSummary()
 {
    Sink& S = sink();
    if(S.counters.empty() && S.distinct.empty()) return;
-   S.finish();
-   S.counters.clear();
-   S.maxima.clear();
-   S.distinct.clear();
-   S.samples.clear();
+   S.flushSummary();
 }
 static bool isRisky(Fn f);
 
@@ -573,6 +614,19 @@ static void viol(Ctx& c, const std::string& site, const std::string& what, const
    sink().count("viol." + what);
 }
 
+static std::string internalInconsistency(SoPlex& s)
+{
+   if(s._rationalLP != nullptr && s.intParam(SoPlex::SYNCMODE) == SoPlex::SYNCMODE_AUTO)
+   {
+      if(s.numRows() != s.numRowsRational() || s.numCols() != s.numColsRational())
+         return "real LP " + std::to_string(s.numRows()) + "x" + std::to_string(s.numCols()) + " vs rational LP " + std::to_string(s.numRowsRational()) + "x" + std::to_string(
+                   s.numColsRational());
+      if(s._colTypes.size() != s.numColsRational() || s._rowTypes.size() != s.numRowsRational())
+         return "type arrays " + std::to_string(s._rowTypes.size()) + "/" + std::to_string(s._colTypes.size()) + " vs rational LP " + std::to_string(s.numRowsRational()) + "x" +
+                std::to_string(s.numColsRational());
+   }
+   return "";
+}
 // after every call: all C++ accessors of *(SoPlex*)H and of M agree
 static void post(Ctx& c, Fn f)
 {
@@ -586,6 +640,20 @@ static void post(Ctx& c, Fn f)
       sink().count("guard.scaled_without_scaler");
       c.dead = true;
       return;
+   }
+   // Guard: exact solves that end infeasible / unbounded can leave the C++ object with a real LP, rational LP and type
+   // arrays of different dimensions (again in pure C++; the exact-solve properties judge that).  Later calls on such an
+   // object read uninitialised memory, so the history ends here without a verdict on the twin comparison.
+   {
+      std::string ia = internalInconsistency(*c.M), ib = internalInconsistency(c.h());
+      if(!ia.empty() && !ib.empty())
+      {
+         sink().count("guard.cpp_object_inconsistent");
+         vlog("    inconsistent: %s", ia.c_str());
+         c.dead = true;
+         c.inconsistent = true;
+         return;
+      }
    }
    sink().count("oracle.twin_compared");
    if(verbose) fprintf(stderr, "    state: %dx%d rational %s colTypes %d rowTypes %d status %d scaled %d\n", c.M->numRows(), c.M->numCols(),
@@ -1354,12 +1422,14 @@ static bool rationalSolveSelected(Ctx& c)
    return !(sm == SoPlex::SOLVEMODE_REAL || (sm == SoPlex::SOLVEMODE_AUTO && c.M->realParam(SoPlex::FEASTOL) >= 1e-9
             && c.M->realParam(SoPlex::OPTTOL) >= 1e-9));
 }
-static bool probeOptimize(Ctx& c)
+static bool opSolVecReal(Ctx& c, Fn f);
+// returns 1: the C++ solve completes with status OPTIMAL, 0: completes with another status, -1: dies
+static int probeOptimize(Ctx& c)
 {
    fflush(stdout);
    fflush(stderr);
    pid_t pid = fork();
-   if(pid < 0) return true;
+   if(pid < 0) return 1;
    if(pid == 0)
    {
       int fd = open("/dev/null", O_WRONLY);
@@ -1369,13 +1439,14 @@ static bool probeOptimize(Ctx& c)
          dup2(fd, 2);
       }
       alarm(60);
-      c.M->optimize();
-      _exit(0);
+      int st = (int)c.M->optimize();
+      _exit(st == (int)SPxSolverBase<double>::OPTIMAL ? 0 : 3);
    }
    int status = 0;
    while(waitpid(pid, &status, 0) < 0 && errno == EINTR) {}
    sink().count("probe.optimize");
-   return WIFEXITED(status) && WEXITSTATUS(status) == 0;
+   if(!WIFEXITED(status)) return -1;
+   return WEXITSTATUS(status) == 0 ? 1 : WEXITSTATUS(status) == 3 ? 0 : -1;
 }
 static bool opOptimize(Ctx& c)
 {
@@ -1404,11 +1475,20 @@ static bool opOptimize(Ctx& c)
    // The exact solver of the C++ library has memory errors of its own on some of these small LPs.  C20 judges the wrapper
    // where the wrapped C++ call itself completes: the mirror's solve is first tried in a forked child; if the child dies
    // the solve is not part of this history.
-   if(!probeOptimize(c))
+   int probe = probeOptimize(c);
+   if(probe < 0)
    {
       sink().count(rationalSolveSelected(c) ? "guard.cpp_optimize_dies_in_probe.rational" : "guard.cpp_optimize_dies_in_probe.real");
       c.dead = true;
       return true;
+   }
+   // Exact solves that do not end OPTIMAL (feasibility / unboundedness refinement) leave the C++ object with inconsistent
+   // dimensions and results that depend on uninitialised memory (twin objects diverge in pure C++).  They are outside the
+   // region in which C20 can be judged: the history performs exact solves only where the probe reports OPTIMAL.
+   if(probe == 0 && rationalSolveSelected(c))
+   {
+      sink().count("guard.exact_solve_not_optimal_skipped");
+      return false;
    }
    int st;
    {
@@ -1424,6 +1504,14 @@ static bool opOptimize(Ctx& c)
    if(st != sh) viol(c, F_optimize, "status-code", "SoPlex_optimize returned " + std::to_string(st) + " but status() of the same object is the enumerator " + std::to_string(sh));
    else if(st != sm) viol(c, F_optimize, "return-mismatch", "SoPlex_optimize returned " + std::to_string(st) + ", C++ optimize() on the mirror " + std::to_string(sm));
    post(c, F_optimize);
+   if(c.inconsistent && c.M->hasSol())
+   {
+      // optimize -> get the solution is the most ordinary use of the interface: it is still performed once
+      c.dead = false;
+      int t = c.g.range(0, 2);
+      opSolVecReal(c, t == 0 ? F_getPrimalReal : t == 1 ? F_getDualReal : F_getRedCostReal);
+      c.dead = true;
+   }
    return true;
 }
 static bool opScalarGetter(Ctx& c, Fn f)
@@ -1512,6 +1600,7 @@ static bool opSolVecReal(Ctx& c, Fn f)
    // the C++ getters copy their whole internal solution vector; if that is longer than dim (seen after infeasible exact
    // solves) the overrun is observed with canaries instead of letting the red zone kill the rest of the history
    int internal = f == F_getPrimalReal ? c.M->_solReal._primal.dim() : f == F_getDualReal ? c.M->_solReal._dual.dim() : c.M->_solReal._redCost.dim();
+   internal = std::max(internal, f == F_getPrimalReal ? c.h()._solReal._primal.dim() : f == F_getDualReal ? c.h()._solReal._dual.dim() : c.h()._solReal._redCost.dim());
    int padM = PADN;
    if(c.M->hasSol() && dim >= cur && internal > dim)
    {
@@ -1533,7 +1622,9 @@ static bool opSolVecReal(Ctx& c, Fn f)
    if(dim > cur) sink().count("args.dim_larger_than_needed");
    if(!a.padsIntact()) viol(c, f, "writes-beyond-dim", std::string(FN[f]) + " wrote outside the " + std::to_string(dim) + " elements of its array (numRows/numCols = " +
                                std::to_string(cur) + (b.padsIntact() ? ")" : "); the wrapped C++ call does the same on the mirror"));
-   for(int i = 0; i < dim; i++) if(!sameBits(a.p[i], b.p[i]))
+   // with a solution: entries 0..numCols/numRows-1 carry the values (the rest of a longer array is unspecified);
+   // without: nothing may be written
+   for(int i = 0; i < (ok ? std::min(dim, cur) : dim); i++) if(!sameBits(a.p[i], b.p[i]))
       {
          viol(c, f, "value-mismatch", "element " + std::to_string(i) + " of " + std::to_string(dim) + ": C array " + ds(a.p[i]) + ", C++ getter " + ds(b.p[i]) +
               (ok ? "" : " (C++ call returned false: nothing may be written)"));
@@ -2142,6 +2233,9 @@ static void finishCase(Ctx& c)
 {
    opFree(c);
    for(auto& f : c.files) unlink(f.c_str());
+#if VL_ASAN
+   g_in_case = false;
+#endif
    leakAudit(c);
    sink().seen("nontrivial", c.seqhash);
    sink().seen("history_lengths", (uint64_t)c.ncalls);
@@ -2151,6 +2245,7 @@ static void startHistory(Ctx& c)
 {
 #if VL_ASAN
    ltReset();
+   g_in_case = true;
 #endif
    opCreate(c);
    if(c.dead) return;
@@ -2409,6 +2504,7 @@ int main(int argc, char** argv)
    verbose = cli.extra.count("verbose") > 0;
    Sink& S = sink();
    S.prop = cli.prop;
+   S.leakEvery = 0;      // this harness runs its own per-call leak audit (leakAudit) with attribution to the C function
    if(cli.prop != "C20")
    {
       fprintf(stderr, "h_capi: unknown property %s\n", cli.prop.c_str());
